@@ -22,7 +22,7 @@ Min2(a, b) == IF a < b THEN a ELSE b
 XInit(t) ==
     [ kind |-> t.kind, size |-> t.size, dstk |-> t.dstk, srck |-> t.srck,
       hasOld |-> t.hasOld, nsubs |-> t.nsubs, provide |-> t.provide,
-      faultFree |-> t.faultFree,
+      faultFree |-> t.faultFree, shortsrc |-> t.shortsrc,
       call |-> "none", started |-> FALSE, queuedBegun |-> FALSE,
       s3n |-> 0, s3open |-> 0, headSeen |-> FALSE,
       s3BeforeQueued |-> FALSE, s3AfterEarlyCancel |-> FALSE,
@@ -49,7 +49,7 @@ XInit(t) ==
       destBad |-> FALSE, tempsAtResult |-> 0, destAtResult |-> "",
       srcRead |-> 0, partDone |-> 0, recv |-> 0, wrote |-> 0,
       hiPart |-> -1, finParts |-> {},
-      uids |-> {} ]
+      ranges |-> {}, uids |-> {} ]
 
 MInit(x) ==
     [ x |-> x, idKnown |-> FALSE, completesOk |-> 0, completeBegins |-> 0,
@@ -195,6 +195,7 @@ S3End(o0, ev) ==
                                  THEN ev.op ELSE @,
                  !.x[i].cplBad = IF ev.op = "CompleteMultipartUpload"
                                  THEN @ \cup CplFlags(ev.parts, xr.size) ELSE @,
+                 !.x[i].ranges = IF ev.op = "GetObject" /\ ok THEN @ \cup {<<ev.bs, ev.bl>>} ELSE @,
                  !.x[i].partDone = IF IsPartOp(ev.op) /\ ev.bl > 0 THEN @ + ev.bl
                                    ELSE IF ev.op = "PutObject" /\ ev.bl > 0 THEN @ + ev.bl ELSE @]
     IN o4
